@@ -53,7 +53,12 @@ RULE = ("predicates: for every predicate, size 1..6 and field (real / complex) t
         "Structured negative instances (c16_hard.py, corpus first, then seeded): pairs of orthonormal bases whose overlap table |<u_k|v_l>|^2 equals 1/d except on one 2x2 rectangle "
         "placed below / above the diagonal of the table or anywhere (d = 4 exactly over Q[i]: a complex Hadamard matrix with two rows mixed by a Pythagorean rotation; d = 3..6 as "
         "float unitaries with prescribed moduli, deviation 0.02..0.08, the float vectors being the exact input), both listing orders of the two bases, with and without a common unitary; "
-        "mutually orthogonal sets containing zero vectors with at most / more members than the dimension (d = 1..6), reordered, and with one zero vector replaced by 1/4..1/16 of a member")
+        "mutually orthogonal sets containing zero vectors with at most / more members than the dimension (d = 1..6), reordered, and with one zero vector replaced by 1/4..1/16 of a member. "
+        "Wave 5 (c16_w5.py): is_totally_positive with explicit sub_sizes that skip lower orders ([2], [3], [2,3], [1,3], [3,2]) on integer matrices found by an exact seeded search whose "
+        "minors of the listed orders on consecutive rows and columns are all positive while one on non-adjacent rows / columns is negative, on matrices with negative entries whose minors of "
+        "the listed orders are all positive, and on Pascal / Vandermonde / Cauchy matrices with one entry negated (each also transposed); strict floating-point stream: "
+        "vectors_from_gram_matrix / vectors_to_gram_matrix (families with a zero vector, a repeated member, repeated basis vectors, the zero Gram matrix: exactly zero pivot), kp_norm, "
+        "trace_norm, majorizes, commutant (zero, rank-deficient, zero-row matrices, zero vectors) evaluated in NumPy's default error state and with invalid / divide / overflow set to 'raise': same outcome demanded")
 ASSUMPTIONS = [
     "rounding an exact rational matrix to float64 moves every entry by at most 2^-53 relative, far below the margin 1e-3*(1+scale) and the library tolerances",
     "float64 arithmetic on the small (Gaussian) integer operands of the helper operations is exact (entries < 2^8, at most 3 factors, at most 36 terms)",
@@ -2346,6 +2351,10 @@ def run(ctx, model_ok=True):
     run_norms(ctx, 40 if quick else 400)
     run_spark(ctx, 60 if quick else 600)
     run_commutant(ctx, 40 if quick else 300)
+    # --- wave 5: explicit sub_sizes that skip lower orders (is_totally_positive); value independent of NumPy's floating-point error state
+    from . import c16_w5
+    c16_w5.run_tp_skip(ctx, sys.modules[__name__])
+    c16_w5.run_strict_fp(ctx, sys.modules[__name__])
     und = {k: v for k, v in ctx.hist.items() if k.startswith("undetermined/") or k.startswith("unintended/")}
     ctx.extra["undetermined_or_unintended_inputs"] = und
     ctx.extra["lean_decided_predicates"] = sorted(list(PREDS) + ["square", "linearly_independent", "mutually_orthogonal", "orthonormal",
